@@ -58,7 +58,7 @@ class ExprMixin:
                 v = PyLit(self.prog.config_literal(), 'config', tags=frozenset(['global']))
             else:
                 v = self.eval_in_module(mod, expr)
-                if isinstance(v, (DictV, ListV)):
+                if isinstance(v, (DictV, ListV, FileV, ObjV)):
                     v.tags = frozenset(v.tags) | {'global'}
             self.modcache[key] = v
             return v
@@ -633,11 +633,11 @@ class ExprMixin:
                     if fi.is_classmethod:
                         return FuncV(fi, cls_obj=ClassV(obj.cls))
                     return FuncV(fi, self_obj=obj)
-                v = self.eval_in_module(r[2].module, r[1])
-                if isinstance(v, (ListV, DictV)):
-                    # a mutable class-level default is shared by all instances
-                    v.tags = frozenset(v.tags) | {'global'}
-                    v.desc = f'class attribute {r[2].name}.{name}'
+                v = self.class_attr(r[2], name, r[1])
+                if isinstance(v, ObjV) and v.cls.lookup('__get__') is not None:
+                    g = v.cls.lookup('__get__')
+                    if g[0] == 'method':
+                        return self.call_function(g[1], [obj, ClassV(obj.cls)], {}, self_obj=v, node=node)
                 return v
             ga = obj.cls.lookup('__getattr__')
             if ga is not None and ga[0] == 'method':
@@ -701,6 +701,19 @@ class ExprMixin:
             return lit(obj.fi.name)
         self.note_unknown(node, f'attribute {name} of {obj!r}')
         return UnkV(f'attr {name}')
+
+    def class_attr(self, owner, name, expr):
+        """Value of a class-level attribute: one object per class (shared by all instances)."""
+        key = ('classattr', owner.qualname, name)
+        if key in self.modcache:
+            return self.modcache[key]
+        v = self.eval_in_module(owner.module, expr)
+        if isinstance(v, (ListV, DictV, ObjV, FileV)):
+            v.tags = frozenset(v.tags) | {'global'}
+            if isinstance(v, (ListV, DictV)):
+                v.desc = f'class attribute {owner.name}.{name}'
+            self.modcache[key] = v
+        return v
 
     def ex_Subscript(self, node):
         obj = self.eval(node.value)
@@ -798,9 +811,17 @@ class ExprMixin:
                         self.assume_ge0(pos)
                 else:
                     self.may_raise(IndexError, node, f'list index {l} (unknown length)', wire=False)
-                if obj.items is not None:
-                    return self.join_many(obj.items)
-                return obj.elem if obj.elem is not None else SymV(self.fresh('elem'), 'elem', origin=obj)
+                memo = obj.__dict__.setdefault('index_memo', {})
+                mk = repr(self.store.canon(l))
+                if mk not in memo:
+                    base = obj.elem if obj.items is None else self.join_many(obj.items)
+                    if isinstance(base, SymV) or base is None:
+                        v = SymV(self.fresh('item'), getattr(base, 'kind', 'elem'), choices=getattr(base, 'choices', None),
+                                 tags=value_tags(obj), origin=('item', obj, l))
+                    else:
+                        v = base
+                    memo[mk] = v
+                return memo[mk]
         if isinstance(obj, DictV):
             return self.dict_get(obj, key, node, strict=True)
         if isinstance(obj, PyLit):
@@ -903,7 +924,17 @@ class ExprMixin:
                     t = self.truth(self.eval(cond))
                     # evaluate the element under the assumption that the filter passed
                     self.event('comp-filter', cond, text=ast.unparse(cond))
+            a0 = getattr(self, 'assumed', 0)
             ev = self.eval(elt)
+            if getattr(self, 'assumed', 0) != a0:
+                # the element value rests on a comparison that could not be decided generically
+                def weaken(v):
+                    if isinstance(v, ConstV) and isinstance(v.value, bool):
+                        return SymV(self.fresh('flag'), 'bool')
+                    if isinstance(v, TupleV):
+                        return TupleV([weaken(x) for x in v.items])
+                    return v
+                ev = weaken(ev)
         finally:
             self.nofork -= 1
             fr.locals = saved_locals
